@@ -73,6 +73,13 @@ def gen_case(rng):
     perm = rng.permutation(len(assets))
     assets = [assets[int(i)] for i in perm]
     kind = gen.pick(rng, ['normal', 'sin', 'neg', 'neg', 'tail_neg']) if mode in ('nosimult', 'lp') else gen.pick(rng, ['normal', 'sin', 'neg', 'tail_neg', 'tail_neg', 'head_neg'])
+    if mode == 'lp' and rng.random() < 0.25:
+        # one of the storages wrapped in a scaled asset of fixed scale (norm scale != 1): the same physics at s / norm_scale times the sizes
+        k_ = next((i for i, a in enumerate(assets) if a['type'] == 'Storage' and not a.get('start') and not a.get('end') and not a.get('freq')), None)
+        if k_ is not None:
+            b_ = assets[k_]; b_name = b_['name']; b_['name'] = b_name + '_base'; b_['wacc'] = 0.
+            sc_ = float(gen.pick(rng, [1., 2., 8.]))
+            assets[k_] = {'type': 'ScaledAsset', 'name': b_name, 'base': b_, 'min_scale': sc_, 'max_scale': sc_, 'norm_scale': float(gen.pick(rng, [2., 4., 1.])), 'fix_costs': 0., 'wacc': 0.}
     return {'grid': g, 'assets': assets, 'prices': gen.gen_prices(rng, T, sorted(set(pk)), kind=kind)}, mode
 
 
@@ -175,6 +182,8 @@ def check_storage(case, a, snap, x, clock, out, portf_T):
                    start_level=a.get('start_level', 0.), inflow=infl, level=[round(float(v), 4) for v in lev[:16]])
     # ---- reporting
     iv = out.get('internal_variables') if out else None
+    if a.get('_no_reported_series'):
+        return moved          # (a storage inside a wrapper: extract_output has no storage series for it)
     if iv is not None:
         col = name + '_fill_level'
         if col not in iv.columns:
@@ -293,6 +302,14 @@ def run_case(rng, tier, case):
             if a.get('start_level') != a.get('end_level'): case.feature('start_ne_end')
             if len(a['nodes']) == 2: case.feature('two_nodes')
             if check_storage(case, gen.strip_private(a), ev.snap, np.asarray(r.res.x, float), clock, r.out, r.built.timegrid.T):
+                nt = True
+        elif a['type'] == 'ScaledAsset' and a['base']['type'] == 'Storage' and a['min_scale'] == a['max_scale']:
+            # a storage of fixed scale s (sizes per norm scale): the physics of a storage whose rates, size, levels and inflow are s / norm_scale times the base's
+            b_ = gen.strip_private(a['base']); k_ = a['min_scale'] / a['norm_scale']
+            eff_ = dict(b_, name=a['name'], **{q: b_[q] * k_ for q in ('cap_in', 'cap_out', 'size', 'start_level', 'end_level', 'inflow') if b_.get(q) is not None})
+            eff_['_no_reported_series'] = True
+            case.feature('storage_inside_scaled_asset')
+            if check_storage(case, eff_, ev.snap, np.asarray(r.res.x, float), clock, r.out, r.built.timegrid.T):
                 nt = True
     case.nontrivial = nt
 
